@@ -3,19 +3,31 @@ import MindsVerif.Gen.TSCfg
 /-!
 # C15 — a time-series model receives exactly its context window plus selected rows
 
-Model: `MindsVerif.TS.planTS` (transcription of `plan_timeseries_predictor`, `ts_utils`), row semantics
-`evalSel`/`fetched`; specification side: `Model/TSSpec.lean`.
+Model: `MindsVerif.TS.planTS cfg` (transcription of `plan_timeseries_predictor` and `ts_utils`; `cfg : Cfg` selects
+the variant of the WHERE handling, `Cfg.pinned` = the current tree: deep validation and operand normalisation, tied
+to the live code by `C15_live_variant`), row semantics `evalSel`/`fetched` over any value domain `α` with decidable
+equality and a total preorder (`VOrd`: `Int`, `String`, …); specification side `Model/TSSpec.lean` (never mentions
+`planTS`).
 
-Domain of the row-set theorem (`Dom`): WHERE = any AND-nesting of *one* time condition of the nine classes
-`t > c`, `t >= c`, `t = c`, `t < c`, `t <= c`, `t BETWEEN a AND b`, `t > LATEST`, `t = LATEST`, none
-(order column on the left, integer constant on the right) and any number of partition filters
-`g_i <cmp> c`, `g_i IN (…)`, `g_i BETWEEN a AND b`; any window, any number of group columns, any partition
-value, **any table contents** (ties, NULL times, NULL group values, empty partitions, duplicates).
+Main statements (all for every table contents — ties, NULL times, NULL group values, empty partitions, duplicates —,
+every window, every number of group columns, every partition record `e` with `envOk`: no NULL in it, or an executor
+that fills `$var[col]` null-safely):
+* `C15_rows` — T15.1 for the nine classes spelled column-first (`Dom`), for every `cfg`;
+* `C15_rows_spellings` — T15.1 on the pinned tree for all sixteen spellings (`t op c`, `c op t`, BETWEEN, `t > LATEST`,
+  `LATEST < t`, `t = LATEST`, `LATEST = t`), specified on the user's own WHERE; `C15_rows_stmt` — per join of a
+  statement with several time-series joins;
+* `C15_rows_nullsafe` / `C15_null_partition_empty` — what the executor must provide for NULL partition values;
+* `C15_partitions`, `C15_otf_partial` (all classes except `t = c`, see KF-C15-1 and `C15_witness_1`), `C15_limit`;
+* `C15_reject_flags`, `C15_decision`, `C15_reject_where` (every WHERE, pinned tree), `C15_no_crash`.
+History (statements about the earlier variants, kept because they hold for every `cfg` / are used by the proofs):
+`C15_reject_where_partial`, `C15_validate_iff` (shallow `validate`), `C15_reject_where_fixed`, `C15_rows_rev_fixed`
+(the generic forms of `C15_reject_where`, `C15_rows_rev`). Regression `example`s state the repaired behaviour of the
+fixed findings.
 
-What is *not* a theorem here: the plan glue around the selects (FROM table, `SELECT *`, integration name,
-step wiring, side of the join) — checked structurally by the correspondence; SQL semantics of the engine
-(`ev`/`evalSel` are tied to sqlite3 by the eval stream); substitution of `$var[col]` is read as SQL equality
-with the non-NULL partition value.
+Not theorems: the plan glue around the selects (FROM table, `SELECT *`, integration, step wiring, join side, one
+partition step per join) — checked by the probe through step references; the SQL semantics of the engine (`ev`,
+`evalSel` are tied to sqlite3 by the eval stream; the specification's `restSel` reuses `sel` for the partition
+filters); `TC.cond (.eq c) = false` is the reading "for an exact time just the most recent `window` rows".
 -/
 namespace MindsVerif.Props.C15
 open MindsVerif.TS
@@ -232,8 +244,9 @@ theorem C15_otf_eq (cfg : Cfg) (m : Meta) (q : Query α) (c : α) (hp : plain q)
     have := plan_tc cfg m q (.eq c) w hq hp hd
     rw [this] at h; injection h with h; subst h; rfl
 
-/-- the user's LIMIT (also `LIMIT 0`, since df1c6e2) becomes the LimitOffsetStep after the join and is never
-pushed into a fetch select (their only limit is the window) -/
+/-- the user's LIMIT (also `LIMIT 0`, since df1c6e2) becomes the LimitOffsetStep after the join (in the model this
+half is the field copy `limitOf = id`; its content is the correspondence of the `limit=` field) and is never pushed
+into a fetch select: their only limit is the window (this half is about the branch table) -/
 theorem C15_limit (cfg : Cfg) (m : Meta) (q : Query α) (tc : Option (TC α)) (hp : plain q)
     (hd : Dom m.nG tc q.whereC = true)
     (pl : Plan α) (h : planTS cfg m q = .ok pl) : LimitSpec m q pl := by
@@ -286,7 +299,8 @@ theorem validO_le (cfg : Cfg) (nG : Nat) (w : W α) (h : validO cfg nG (some w) 
   · exact validateDeep_le nG w h
   · exact h
 
-/-- on the fragment where `validate_ts_where_condition` sees every position (`visible`), a WHERE with a
+/-- [history: the shallow validation before 6ba8cb8; holds for every `cfg`] on the fragment where that
+validation sees every position (`visible`), a WHERE with a
 disallowed operator, a column other than the order / group columns, or an AND operand that is not a condition
 is rejected with PlanningException (pinned tree and repaired tree alike) -/
 theorem C15_reject_where_partial (cfg : Cfg) (m : Meta) (q : Query α) (w : W α) (hq : q.whereC = some w)
@@ -315,7 +329,7 @@ theorem C15_reject_where_fixed (cfg : Cfg) (hcfg : cfg.deepValidate = true) (m :
     rcases hbad with h | h | h <;> simp [h]
   exact ((C15_decision cfg m q).1).2 (Or.inr (Or.inr (Or.inr (Or.inr (Or.inl this)))))
 
-/-- conversely, on that fragment an all-allowed WHERE passes the validation -/
+/-- [history: shallow `validate`] conversely, on that fragment an all-allowed WHERE passes the validation -/
 theorem C15_validate_iff (nG : Nat) (w : W α) (hop : w.isOperation = true) (hvis : visible w = true) :
     validate nG w = (opsOk w && colsOk nG w && andOk w) := by
   have hs := validate_spec nG w hvis
